@@ -126,6 +126,9 @@ def check(desc, res):
     if 'build_error' in info:
         res.fail('C04.build_failed', info['build_error'])
         return None
+    if 'livelock' in info:
+        res.fail('C04.livelock', "the FSM keeps the event loop busy without any time passing: " + info['livelock'])
+        return None
     outcomes = fsmlab.admissible_runs(desc, log)
     idx, diff = fsmlab.compare(results, log, outcomes)
     if idx is None:
